@@ -1,3 +1,3 @@
 From Coq Require Import ExtrOcamlBasic NArith ZArith.
-From CppUVerif Require Import C18_Model C18_ModelG C18_ModelE.
-Extraction "c18_model.ml" C18_Model.run C18_Model.spec C18_Model.valid C18_ModelG.grun C18_ModelG.gspec C18_ModelG.gvalid C18_ModelE.erun C18_ModelE.espec C18_ModelE.evalid BinInt.Z.of_N.
+From CppUVerif Require Import C18_Model C18_ModelG C18_ModelE C18_ModelW.
+Extraction "c18_model.ml" C18_Model.run C18_Model.spec C18_Model.valid C18_ModelG.grun C18_ModelG.gspec C18_ModelG.gvalid C18_ModelE.erun C18_ModelE.espec C18_ModelE.evalid C18_ModelW.wrun C18_ModelW.wspec C18_ModelW.wvalid BinInt.Z.of_N.
